@@ -26,6 +26,10 @@ def unit_space(d):
     return make_space({"bounds": [[0.0] * d, [1.0] * d], "precision": [0.25] * d})
 
 
+def box_space(lo, hi):
+    return make_space({"bounds": [list(lo), list(hi)], "precision": [(h - l) / 4 for l, h in zip(lo, hi)]})
+
+
 class C13(Check):
     pid = "C13"
     level = "exploration"
@@ -74,6 +78,11 @@ class C13(Check):
         if rng.random() < 0.06:
             # the same object is later used on a space of another dimension
             ops.insert(rng.randrange(1, len(ops)), ["dims", rng.randint(1, 12)])
+        if rng.random() < 0.3:
+            # a search space that is not the unit cube: the unit-cube points are recovered from the pre-snap values by
+            # undoing the affine map (lower + u * (upper - lower)); the same SearchSpace object serves every batch
+            lo = [rng.choice([-5.0, -0.5, 0.5, 1.0, 3.0, 100.0]) for _ in range(scn["dims"])]
+            scn["box"] = [lo, [l + rng.choice([0.5, 1.0, 2.0, 3.0, 8.0]) for l in lo]]
         return scn
 
     # ----------------------------------------------------------------------------------------
@@ -122,8 +131,12 @@ class C13(Check):
             return digitize_data(data, grid)
         engaged = seams.replace_global("digitize", digitize_data, rec)
         try:
-            space = unit_space(d)
+            box = scn.get("box")
+            space = box_space(*box) if box else unit_space(d)
+            lo_w = [np.array(box[0]), np.array(box[1]) - np.array(box[0])] if box else None
             empty_p, empty_l = np.zeros((0, d)), np.zeros(0)
+            if box:
+                res.stats["non-unit-search-space"] += 1
 
             def draw(obj, n):
                 captured.clear()
@@ -137,6 +150,8 @@ class C13(Check):
                 pre = captured[-1]
                 if pre.shape != (n, d):
                     raise Discard("unexpected pre-snap shape")
+                if lo_w is not None:
+                    pre = (pre - lo_w[0]) / lo_w[1]
                 return pre
             for sd, sn in scn.get("siblings", []):
                 sib = self.make(kind, 1, 777)
@@ -156,7 +171,8 @@ class C13(Check):
                 nonlocal t0, first_pt
                 if kind == "halton":
                     if t0 is None:
-                        t0 = invert_base2(float(pre[0, 0]))
+                        u0 = float(pre[0, 0])
+                        t0 = invert_base2(u0 if lo_w is None else round(u0 * 2 ** 24) / 2 ** 24)
                         if t0 is None or not (20 <= t0 <= 2 ** 16):
                             res.add("halton-start", "range", f"{where}: first point's base-2 coordinate {pre[0, 0]!r} corresponds to sequence index {t0}, outside [20, 2^16]")
                             return False
@@ -205,6 +221,7 @@ class C13(Check):
                         return
                     d = op[1]
                     space = unit_space(d)
+                    lo_w = None
                     empty_p, empty_l = np.zeros((0, d)), np.zeros(0)
                     alpha = rseq_alpha(d) if kind == "rseq" else None
                     if kind == "halton" and t0 is not None:
@@ -287,7 +304,13 @@ class C13(Check):
                 if 1 <= nd < scn["dims"]:
                     c = copy.deepcopy(scn)
                     c["dims"] = nd
+                    if c.get("box"):
+                        c["box"] = [c["box"][0][:nd], c["box"][1][:nd]]
                     yield c
+        if scn.get("box"):
+            c = copy.deepcopy(scn)
+            del c["box"]
+            yield c
 
 
 CHECK = C13()
